@@ -40,6 +40,13 @@ def do_reject(fog, ev, n, ctx):
     bad = ba.pick(ba.NOT_SEQUENCE, n) if kind == "notsequence" else ba.pick(ba.BAD_NIBBLES, n)
     some = contents(fog)[0] if contents(fog) else ()
     try:
+        if arg == "concatenated":
+            # a malformed sequence built by concatenation onto a valid Nibbles object
+            tail = ba.pick([(16,), (-1,), (None,), (b"F",), (3, 255)], n)
+            made = typing.Nibbles((1, 2)) + tail
+            if e == "explore":
+                fog.explore(some, [made])
+            return "accepted", repr(made)[:60]
         if e == "explore":
             if arg == "prefix":
                 fog.explore(bad, ())
